@@ -294,10 +294,20 @@ def run_machine_stage(prop, stage, seed_value, stats, open_known, deadline, exam
         derandomize=False, report_multiple_bugs=False, suppress_health_check=list(HealthCheck),
         phases=[Phase.generate, Phase.shrink], print_blob=False,
     )
+    from hypothesis.errors import Flaky
+
+    before = len(stats.failures)
     try:
         run_state_machine_as_test(seed(seed_value)(machine), settings=cfg)
     except AssertionError:
         pass  # the verdict is in stats.failures (smallest failing history)
+    except (Flaky, ExceptionGroup):
+        # the same history gave different results when the library replayed it: the code under
+        # test keeps state between histories (itself a history dependence).  The failing
+        # histories were recorded by on_history; without any the exception is a harness error.
+        if len(stats.failures) == before:
+            raise
+        stats.labels["machine:replay-gave-different-result"] += 1
 
 
 def hyp_settings(examples, shrink=False):
